@@ -83,6 +83,15 @@ Offsets(R) == \A i \in 1..Len(Threads(R)) : \A j \in 1..Len(F(Threads(R)[i], "fr
 MissingSymbolsMirror(R) == \A i \in 1..Len(Threads(R)) : \A j \in 1..Len(F(Threads(R)[i], "frames").v) : LET fr == F(Threads(R)[i], "frames").v[j] IN
    (Has(fr, "missing_symbols") /\ IsBool(F(fr, "missing_symbols"))) =>
         (F(fr, "missing_symbols").v <=> (~Has(fr, "function") \/ IsNull(F(fr, "function"))))
+\* a frame is attributed to the module that contains its address ("offset"): when exactly one listed module covers the address the frame
+\* names it, and a frame that names a (uniquely named) module lies inside it.  end_addr is exclusive.
+Covering(R, off) == LET Ms == F(R, "modules").v IN {i \in 1..Len(Ms) : /\ F(Ms[i], "base_addr").t = "s" /\ F(Ms[i], "end_addr").t = "s"
+                                                                      /\ Le(Limbs(F(Ms[i], "base_addr").v), off) /\ Lt(off, Limbs(F(Ms[i], "end_addr").v))}
+ModuleAttribution(R) == \A i \in 1..Len(Threads(R)) : \A j \in 1..Len(F(Threads(R)[i], "frames").v) : LET fr == F(Threads(R)[i], "frames").v[j] IN
+   (Has(fr, "offset") /\ F(fr, "offset").t = "s" /\ Has(R, "modules") /\ IsArr(F(R, "modules"))) =>
+      LET off == Limbs(F(fr, "offset").v)  cov == Covering(R, off)  Ms == F(R, "modules").v IN
+        /\ (Cardinality(cov) = 1 => LET m == Ms[CHOOSE k \in cov : TRUE] IN (F(m, "filename").t = "s" => (~IsNull(F(fr, "module")) /\ F(fr, "module").v = F(m, "filename").v)))
+        /\ (cov = {} => IsNull(F(fr, "module")))
 IpNames == {"eip", "rip", "pc", "srr0"}
 \* the crashing-thread copy is the indexed thread plus the registers of frame 0
 Copy(R, req) == IF ~Has(R, "crashing_thread") \/ IsNull(F(R, "crashing_thread")) THEN req = 0 \/ Len(F(Threads(R)[req], "frames").v) >= 0
@@ -111,6 +120,7 @@ Verdict(i, r) ==
             /\ (~Counts(r.report) => PrintT(<<"VERDICT", i, "CountsAndNumbering">>))
             /\ (~Offsets(r.report) => PrintT(<<"VERDICT", i, "Offsets">>))
             /\ (~MissingSymbolsMirror(r.report) => PrintT(<<"VERDICT", i, "MissingSymbolsMirror">>))
+            /\ (~ModuleAttribution(r.report) => PrintT(<<"VERDICT", i, "ModuleAttribution">>))
             /\ (~Copy(r.report, r.req) => PrintT(<<"VERDICT", i, "CrashingThreadCopy">>))
             /\ (~Mirrors(r.report, r.modules) => PrintT(<<"VERDICT", i, "ModulesMirror">>))))
 TInit == l = 1
